@@ -11,7 +11,7 @@ from vf.core import Result, lib
 ID = "C15"
 TITLE = "Multiphase pseudopressure is the pressure integral of total mobility"
 LEVEL = "exploration"
-BUDGET = {"quick": 1600, "thorough": 600000}
+BUDGET = {"quick": 4000, "thorough": 600000}
 SHRINK = {"quick": True, "thorough": True}
 RULE = (
     "Hypothesis draws a multiphase PVT table (shipped oil+water merge as the repository's fixture builds it, thinned; "
